@@ -136,32 +136,34 @@ def group_of(v):
     return '?%r' % (v,)
 
 
-def parse_rules(ctx, I):
+def parse_rules(ctx, I, r5='C18.R5', freshness_only=False):
     fr = frame()
     st = stale_state()
     res = I.run_method(st, GP, 'parse', Obj('GP'), [SStr('SRC')])
     ok_paths = [(s, v) for (s, v) in res if not isinstance(v, Raised)]
     for (s, v) in res:
         if isinstance(v, Raised) and v.exc != 'AssertionError':
-            ctx.report('C18.R5', (v.where or ('GcodeParser.parse', 0))[0], 'parse raises %s: %s' % (v.exc, v.info),
+            ctx.report(r5, (v.where or ('GcodeParser.parse', 0))[0], 'parse raises %s: %s' % (v.exc, v.info),
                        'parsing a matched line can raise (None handling of an optional group)')
     if not ok_paths:
         raise AnalysisError('parse has no normal path')
     readers = reader_attrs(ctx.model)
     for (s, v) in ok_paths:
         if not (isinstance(v, Obj) and v.oid == 'GP'):
-            ctx.report('C18.R5', 'GcodeParser.parse', 'return value %r' % (v,), 'parse must return the parser itself')
+            ctx.report(r5, 'GcodeParser.parse', 'return value %r' % (v,), 'parse must return the parser itself')
         for a in sorted(readers):
-            ctx.instance('C18.R5', a)
+            ctx.instance(r5, a)
             val = s.heap.get(('GP', a))
             for x in (live_alts(s, val) if val is not None else [Opaque('STALE.' + a)]):
                 if isinstance(x, Opaque) and x.tag.startswith('STALE.'):
                     # `if self.x != value: self.x = value`: on the path where they compared equal the old value IS the new one
                     if any(k[0] in ('eq', 'isnone') and x.tag in repr(k) and v2 == frozenset([True]) for k, v2 in s.dom.items()):
                         continue
-                    ctx.report('C18.R5', 'GcodeParser.parse', 'attribute %s keeps the previous value' % a,
+                    ctx.report(r5, 'GcodeParser.parse', 'attribute %s keeps the previous value' % a,
                                'parse() does not re-assign %s on every path: readers (fullText, stringify, validate, ...) '
                                'would see the value of an earlier line' % a)
+        if freshness_only:
+            continue
         # R4 fullText
         for (s2, ft) in getattr_value(I, s.clone(), Obj('GP'), 'fullText', fr):
             ctx.instance('C18.R4', repr(ft)[:80])
@@ -187,7 +189,7 @@ def parse_rules(ctx, I):
                     ctx.report('C18.R4', 'GcodeParser.fullText', 'parts %s' % flat,
                                'fullText does not join leading whitespace, text, "*"+checksum, trailing whitespace, comment '
                                'and eol (groups 1, 2, 10, 11, 12, 13) in that order')
-    ctx.sample({'rule': 'C18.R5', 'reader_attributes': sorted(readers), 'parse_paths': len(ok_paths)})
+    ctx.sample({'rule': r5, 'reader_attributes': sorted(readers), 'parse_paths': len(ok_paths)})
     return ok_paths
 
 
